@@ -46,7 +46,7 @@ ASSUMPTIONS = [
 ]
 REAL_STUB = {"real": ["onnx_ir.serde (to_proto / from_proto)", "onnx_ir core"], "stub": [], "harness_extension_points": ["LazyTensor thunks"]}
 
-EDITS = ["drop_type", "drop_shape", "empty_optional_output", "none_input", "rename_value", "rename_node", "add_node", "remove_unused", "doc", "metadata", "attr_set", "attr_del", "retensor", "symbolic_shape", "symbolic_shape", "denotation", "denotation", "seq_type", "shadow_name", "shadow_name", "share_tensor", "share_tensor", "tensor_meta", "tensor_meta", "share_tensor_attr", "lazy_transient", "io_roles", "io_roles"]
+EDITS = ["opset_spelling", "drop_type", "drop_shape", "empty_optional_output", "none_input", "rename_value", "rename_node", "add_node", "remove_unused", "doc", "metadata", "attr_set", "attr_del", "retensor", "symbolic_shape", "symbolic_shape", "denotation", "denotation", "seq_type", "shadow_name", "shadow_name", "share_tensor", "share_tensor", "tensor_meta", "tensor_meta", "share_tensor_attr", "lazy_transient", "io_roles", "io_roles"]
 
 
 def gen_case(run_seed: int, tier: str, index: int = 0) -> dict:
@@ -101,6 +101,17 @@ def apply_edit(model, edit, fresh) -> str:
         pool[b % len(pool)].name = fresh("rv")
     elif kind == "rename_node":
         n.name = fresh("rn")
+    elif kind == "opset_spelling":
+        # the default operator set imported under its long spelling ("ai.onnx"), instead of or next to ""
+        owners = [model.graph] + [f.graph for f in model.functions.values()] + ([model] if hasattr(model, "opset_imports") else [])
+        tgt = owners[a % len(owners)]
+        imports = tgt.opset_imports
+        ver = imports.get("", 20)
+        if b % 3 == 0:
+            imports["ai.onnx"] = ver - 1  # both spellings
+        else:
+            imports.pop("", None)
+            imports["ai.onnx"] = ver
     elif kind == "add_node":
         g = model.graph
         src = list(g.inputs) + [o for x in g for o in x.outputs if o.name]
